@@ -482,7 +482,7 @@ fn cast_case(kind: CastKind, from: Ty, to: Ty, x: &BigInt, coq: bool) -> Case {
 }
 
 fn gen_casts(rng: &mut Rng, thorough: bool, out: &mut Vec<Case>) {
-    let n_rand = if thorough { 40 } else { 5 };
+    let n_rand = if thorough { 24 } else { 5 };
     let operands = |rng: &mut Rng, from: Ty, to: Ty, nb: usize| -> Vec<BigInt> {
         // boundary of the source, boundary of the target (and +-1 around it, and + P for felt sources)
         let mut v: BTreeSet<BigInt> = BTreeSet::new();
@@ -515,7 +515,7 @@ fn gen_casts(rng: &mut Rng, thorough: bool, out: &mut Vec<Case>) {
             all.remove(i);
         }
         v.extend(all);
-        for d in [to.min() - 1, to.min(), to.max(), to.max() + 1, BigInt::zero(), BigInt::from(-1)] {
+        for d in [to.min() - 1, to.min(), to.max(), to.max() + 1, BigInt::zero(), BigInt::from(-1), BigInt::one() << 128u32, (BigInt::one() << 128u32) - 1] {
             if d >= lo && d <= hi {
                 v.insert(d);
             }
@@ -525,7 +525,7 @@ fn gen_casts(rng: &mut Rng, thorough: bool, out: &mut Vec<Case>) {
         }
         v.into_iter().collect()
     };
-    let nb = if thorough { 60 } else { 10 };
+    let nb = if thorough { 40 } else { 8 };
     // Into
     let mut into_pairs: Vec<(Ty, Ty)> = UPCASTABLE.to_vec();
     for t in INTS10 {
@@ -701,7 +701,7 @@ fn lf_case(lf: Lf, kx: bool, ky: bool, x: &BigInt, y: &BigInt) -> Case {
 }
 
 fn gen_lf(rng: &mut Rng, thorough: bool, out: &mut Vec<Case>) {
-    let n = if thorough { 60 } else { 10 };
+    let n = if thorough { 40 } else { 6 };
     let mut lfs: Vec<Lf> = vec![Lf::FeltDiv, Lf::FAdd, Lf::FSub, Lf::FMul, Lf::Eq(Ty::Felt), Lf::Eq(Ty::U256)];
     for t in [Ty::U8, Ty::U16, Ty::U32, Ty::U64, Ty::U128] {
         lfs.extend([Lf::UAdd(t), Lf::USub(t), Lf::Eq(t), Lf::UDiv(t), Lf::URem(t)]);
@@ -720,7 +720,7 @@ fn gen_lf(rng: &mut Rng, thorough: bool, out: &mut Vec<Case>) {
         let mut pairs: Vec<(BigInt, BigInt)> = vec![];
         // the identity / absorbing elements on either side, against boundary and random operands
         for s in &special {
-            for _ in 0..3 {
+            for _ in 0..(if thorough { 3 } else { 2 }) {
                 let o = if rng.bool() { rng.pick(&bs).clone() } else { random_operand(rng, t) };
                 pairs.push((s.clone(), o.clone()));
                 pairs.push((o, s.clone()));
@@ -735,7 +735,7 @@ fn gen_lf(rng: &mut Rng, thorough: bool, out: &mut Vec<Case>) {
             pairs.push((BigInt::from(-1), BigInt::from(-1)));
         }
         // felt252_div: the Coq side computes a modular inverse per literal/literal case (slow)
-        let n = if lf == Lf::FeltDiv { n / 2 } else { n };
+        let n = if lf == Lf::FeltDiv { n / 3 } else { n };
         for _ in 0..n {
             let x = if rng.bool() { rng.pick(&bs).clone() } else { random_operand(rng, t) };
             let y = if rng.bool() { rng.pick(&bs).clone() } else { random_operand(rng, t) };
@@ -804,7 +804,7 @@ fn expr_case(tpl: usize, t: Ty, x: &BigInt, y: &BigInt) -> Option<Case> {
     })
 }
 fn gen_expr(rng: &mut Rng, thorough: bool, out: &mut Vec<Case>) {
-    let n = if thorough { 40 } else { 6 };
+    let n = if thorough { 24 } else { 6 };
     for t in ALL_TYS {
         let bs = boundary(t);
         for tpl in 0..6 {
@@ -827,7 +827,7 @@ pub fn generate(rng: &mut Rng, thorough: bool) -> (Vec<Case>, BTreeMap<String, u
             cases.push(c);
         }
     };
-    let (n_bb, n_rand) = if thorough { (160, 120) } else { (22, 12) };
+    let (n_bb, n_rand) = if thorough { (100, 70) } else { (14, 8) };
     for t in ALL_TYS {
         let bs = boundary(t);
         for op in ALL_OPS {
@@ -866,6 +866,13 @@ pub fn generate(rng: &mut Rng, thorough: bool) -> (Vec<Case>, BTreeMap<String, u
                     (BigInt::zero(), BigInt::zero()),
                     (BigInt::from(7), BigInt::from(3)),
                 ];
+                if t == Ty::U256 {
+                    let w: BigInt = BigInt::one() << 128u32;
+                    fixed.extend([(w.clone(), w.clone()), (hi.clone(), w.clone()), (&w * 3, &w - 1), (&w - 1, w.clone())]);
+                }
+                if t.is_felt() {
+                    fixed.extend([(hi.clone(), m1.clone()), (m1.clone(), hi.clone()), (&hi / 2, &hi / 2 + 1)]);
+                }
                 if t.signed() || t.is_felt() {
                     fixed.extend([
                         (lo.clone(), m1.clone()),
